@@ -21,3 +21,37 @@ def _ned(prefix, tier, funcs, quick=("0,1", "6,1", "1,5", "7,6"), thorough=("0,1
                bounds="two lines with these indices at one tick; symbolic lengths, tick, gap, resolution, tempo boundary, hint, one phrase; "
                       "times, lanes, sustain, HOPO rule, star power and returned cursors against the property's definitions")
             for ix in (quick if tier == "quick" else thorough)]
+
+
+# ---- round-4 shared obligations ------------------------------------------------------------------
+def _sync_section(prefix, triples, timeout=900):
+    """SyncTrack.from_chart_lines on token lines; one partition per triple of tempo tokens
+    (vf harness.h_sync2.RAWS: 0/2 = "120000", 1 = "60500", 3 = "1", 4 = "0")."""
+    return [Ob(f"{prefix}.sync_section[{tr}]", "CH", "harness.h_sync2", "sync_section", timeout, {"VF_RAWS": tr},
+               funcs=("chartparse.sync.SyncTrack.from_chart_lines", "chartparse.sync.BPMEvent.from_parsed_data",
+                      "chartparse.sync.TimeSignatureEvent.from_parsed_data", "chartparse.sync.AnchorEvent.from_parsed_data",
+                      "chartparse.track.parse_data_from_chart_lines", "chartparse.track.build_events_from_data"),
+               bounds="whole [SyncTrack] on token lines: tempo lines with these tokens (equal neighbours / zero tempos included) at symbolic ticks, "
+                      "symbolic resolution, a second signature at a symbolic tick with exponent from {none,0,1,2,3,5,9,16}, an anchor with a symbolic "
+                      "value on or off a tempo tick: every line yields its own event with the written values, times = the stand-in clock's exact "
+                      "tempo-map time = the un-hinted query, anchors move nothing, rejected (ValueError) exactly when a zero tempo governs something")
+            for tr in triples]
+
+
+def _two_maps(prefix):
+    return Ob(f"{prefix}.two_maps", "CH", "harness.h_sync2", "two_maps", 300,
+              funcs=("chartparse.sync.BPMEvents.timestamp_at_tick", "chartparse.sync.BPMEvents.timestamp_at_tick_no_optimize_return"),
+              bounds="the same symbolic tick asked of two tempo maps with different change points, tempos and resolutions in one process "
+                     "(second map possibly built after the first was freed), repeated questions: each map answers from its own data")
+
+
+def _e2e(prefix, variants, timeout=2400):
+    names = {0: "base", 1: "song-fields", 3: "song-fields+signature+anchors", 7: "song-fields+signature+anchors+player2"}
+    return [Ob(f"{prefix}.chart_e2e.{names.get(v, v)}", "CH", "harness.h_e2e", "chart_e2e", timeout, {"VF_E2E": v},
+               funcs=("chartparse.chart.Chart.from_file", "chartparse.chart.Chart._partition_lines_by_data_section",
+                      "chartparse.metadata.Metadata.from_chart_lines", "chartparse.sync.SyncTrack.from_chart_lines",
+                      "chartparse.globalevents.GlobalEventsTrack.from_chart_lines", "chartparse.instrument.InstrumentTrack.from_chart_lines"),
+               bounds="the whole real Chart.from_file on token lines (5 sections, 2 tracks, 2 tempo events, 2 notes, phrase, track/global events) with "
+                      "symbolic resolution, [Song] numbers, ticks, lengths and anchor values; every stored value and time against the statement "
+                      "(times: the stand-in clock's exact tempo-map time; HOPO rule with the [Song] resolution); [Song] first or last")
+            for v in variants]
